@@ -194,6 +194,12 @@ class Extractor:
             return 'else' in n and self.terminates(f, n['then']) and self.terminates(f, n['else'])
         return False
 
+    def only_continue(self, f, i):
+        n = f.nodes[i]
+        if n['k'] == 'ContinueStmt':
+            return True
+        return n['k'] == 'CompoundStmt' and len(n['ch']) == 1 and f.nodes[n['ch'][0]]['k'] == 'ContinueStmt'
+
     def stmt(self, f, R, i, subst, depth):
         n = f.nodes[i]
         k = n['k']
@@ -211,6 +217,15 @@ class Extractor:
                         out.extend(self.expr_items(f, R, m['cond'], subst, depth))
                         out.append(('alt', substitute(R.render(m['cond']), subst), th, rest, m['id'], f))
                         return out
+                # inside a loop body:  `if (c) continue;  rest`  is  `if (!c) { rest }`
+                if m['k'] == 'IfStmt' and 'else' not in m and self.only_continue(f, m['then']):
+                    rest = []
+                    for c2 in n['ch'][j + 1:]:
+                        rest.extend(self.stmt(f, R, c2, subst, depth))
+                    out.extend(self.expr_items(f, R, m['cond'], subst, depth))
+                    if rest:
+                        out.append(('alt', substitute(R.render(m['cond']), subst), [], rest, m['id'], f))
+                    return out
                 out.extend(self.stmt(f, R, c, subst, depth))
             return out
         if k == 'IfStmt':
